@@ -1,4 +1,5 @@
 import OmplModel.Proofs.SpaceDistLaws
+import OmplModel.Proofs.SpaceDistDom
 import OmplModel.Generated.Claims
 /-!
 # C06 — state-space distances obey the metric laws each space claims
@@ -38,8 +39,8 @@ example : inDom (.time true 0 1) (.time (1 / 2 : ℝ)) := by simp [inDom]; norm_
 /-- an unbounded TimeStateSpace reports extent 1 while its distances are unbounded (finding F17). -/
 theorem time_unbounded_extent_fails : ¬ ExtentLaw (.time false 0 0 : Space ℝ) := by
   intro h
-  have := h (.time 0) (.time 5) (by simp [inDom]) (by simp [inDom])
-  simp only [dist, maxExtent, timeDist_real, timeExtent_false_real] at this
+  have := h (.time 0) (.time 5) (by show _ → _; simp) (by show _ → _; simp)
+  simp only [SpaceDist.dist, maxExtent, timeDist_real, timeExtent_false_real] at this
   norm_num at this
 
 /-- discrete: all six laws. -/
@@ -162,7 +163,7 @@ theorem klein_other_laws (u1 v1 u2 v2 : ℝ) (hu1 : 0 ≤ u1 ∧ u1 ≤ Real.pi)
 `equalStates` distinguishes them … -/
 theorem sphere_pole_distance_zero (r t1 t2 : ℝ) :
     dist (.sphere r : Space ℝ) (.ccons (.so2 t1) (.ccons (.rv [0]) .cnil)) (.ccons (.so2 t2) (.ccons (.rv [0]) .cnil)) = 0 := by
-  simp only [dist]
+  simp only [SpaceDist.dist]
   exact Seam.sphere_pole_distance_zero r t1 t2
 
 /-- … and the distance between the poles, `π·r`, exceeds the reported extent `2π` as soon as `r > 2`. -/
@@ -172,7 +173,7 @@ theorem sphere_extent_exceeded (r : ℝ) (hr : 2 < r) : ¬ ExtentLaw (.sphere r 
   have := h (.ccons (.so2 0) (.ccons (.rv [0]) .cnil)) (.ccons (.so2 0) (.ccons (.rv [Real.pi]) .cnil))
     ⟨h0, le_refl _, Real.pi_pos.le⟩ ⟨h0, Real.pi_pos.le, le_refl _⟩
   rw [Seam.maxExtent_sphere] at this
-  simp only [dist] at this
+  simp only [SpaceDist.dist] at this
   exact absurd this (not_le.2 (Seam.sphere_extent_exceeded r hr))
 
 /-! ## compounds and wrappers -/
@@ -181,7 +182,7 @@ theorem sphere_extent_exceeded (r : ℝ) (hr : 2 < r) : ¬ ExtentLaw (.sphere r 
 theorem compound_dist_is_weighted_sum (w : ℝ) (h t : Space ℝ) (ht : isCList t = true) (a1 a2 b1 b2 : St ℝ) :
     dist (.ccons w h t) (.ccons a1 a2) (.ccons b1 b2) = w * dist h a1 b1 + dist t a2 b2 ∧
     dist (.cnil : Space ℝ) .cnil .cnil = 0 :=
-  ⟨dist_ccons w h t ht a1 a2 b1 b2, by simp [dist]⟩
+  ⟨dist_ccons w h t ht a1 a2 b1 b2, by simp [SpaceDist.dist]⟩
 example : isCList (.ccons (1 / 2) .so2 .cnil : Space ℝ) = true := rfl
 
 /-- the reported extent of a compound is the weighted sum of its components' extents (weights ≥ 2⁻⁵²). -/
@@ -216,6 +217,14 @@ theorem wrapper_laws (s : Space ℝ) : (Laws (.wrap s) ↔ Laws s) ∧ (ExtentLa
 theorem zero_weight_ignored (h t : Space ℝ) (ht : isCList t = true) (a1 a2 b1 b2 : St ℝ) :
     dist (.ccons 0 h t) (.ccons a1 a2) (.ccons b1 b2) = dist t a2 b2 := by
   rw [dist_ccons 0 h t ht]; simp
+
+/-- the exact domain of the theorems above lies inside what the code's `satisfiesBounds` accepts (which adds
+ε = 2⁻⁵² around boxes and time bounds, 1e-9 around the unit quaternions): Rⁿ, SO(2), SO(3), time, discrete, torus
+leaves under any nesting of compounds and wrappers. -/
+theorem domain_inside_code_bounds (sp : Space ℝ) (h : AllLeaves (fun _ => True) CodeLeaf sp) (a : St ℝ)
+    (ha : inDom sp a) : satisfiesBounds sp a = true := inDom_satisfiesBounds sp h a ha
+example : AllLeaves (fun _ => True) CodeLeaf (.ccons 1 (.rv [0] [1]) (.ccons 1 .so3 .cnil) : Space ℝ) := by
+  simp [AllLeaves, CodeLeaf, isCList]
 
 /-! ## what the code claims (generated by running it) is covered -/
 
